@@ -177,3 +177,97 @@ func replayConcBind(r *common.Run, f []string) error {
 	runConcBind(r, sched, items, "replay")
 	return nil
 }
+
+// runBindFresh: k receiving sessions, one after the other ("seq") or free-running in
+// parallel ("par"), on ONE xmpp.BindResource() value (no callback: the feature assigns a
+// random resource on the bare remote address).
+//
+//	bindr <mode> <k> <remotehex>  -> the assigned resources, named R<n> in order of first appearance
+func runBindFresh(r *common.Run, mode string, k int, remote string, class string) {
+	rj := jid.MustParse(remote)
+	feat := xmpp.BindResource() // ONE feature value for all sessions
+	conns := make([]*nc.Conn, k)
+	sess := make([]*xmpp.Session, k)
+	errs := make([]error, k)
+	panics := make([]string, k)
+	run := func(i int) {
+		req := fmt.Sprintf("<iq type='set' id='id%d'><bind xmlns='%s'/></iq>", i, nsBind)
+		conns[i] = nc.NewConn(nc.S(nc.Header("jabber:client", "", rj.String(), rj.Domain().String())), nc.S(req))
+		panics[i] = common.Recover(func() {
+			sess[i], errs[i] = xmpp.NewSession(context.Background(), rj.Domain(), rj, conns[i], xmpp.Received|xmpp.Secure|xmpp.Authn, negotiator(false, "", feat))
+		})
+	}
+	if mode == "par" {
+		var wg sync.WaitGroup
+		start := make(chan struct{})
+		for i := 0; i < k; i++ {
+			i := i
+			wg.Add(1)
+			go func() { defer wg.Done(); <-start; run(i) }()
+		}
+		close(start)
+		wg.Wait()
+	} else {
+		for i := 0; i < k; i++ {
+			run(i)
+		}
+	}
+	line := fmt.Sprintf("bindr %s %d %s", mode, k, hx(remote))
+	lines := []string{r.Prop + " " + line}
+	bare := rj.Bare().String()
+	names := map[string]string{}
+	var obs, resources []string
+	for i := 0; i < k; i++ {
+		if panics[i] != "" {
+			obs = append(obs, "PANIC")
+			r.Fail("bind-no-panic", "fresh", lines, panics[i])
+			continue
+		}
+		raw := ""
+		streams, _ := nc.ParseWritten(conns[i].Written())
+		if len(streams) > 0 {
+			for _, e := range streams[0].Elems {
+				if bd, ok := e.Child("bind"); ok && e.Name.Local == "iq" {
+					if je, ok := bd.Child("jid"); ok {
+						raw = je.Text
+					}
+				}
+			}
+		}
+		res := ""
+		if strings.HasPrefix(raw, bare+"/") {
+			res = raw[len(bare)+1:]
+		}
+		resources = append(resources, res)
+		switch {
+		case res == "":
+			obs = append(obs, "EMPTY")
+		default:
+			if _, ok := names[res]; !ok {
+				names[res] = fmt.Sprintf("R%d", len(names))
+			}
+			obs = append(obs, names[res])
+		}
+	}
+	// ---- oracle: fresh per session ----
+	for i := 0; i < k; i++ {
+		if i >= len(resources) {
+			break
+		}
+		if resources[i] == "" {
+			r.Fail("bind-fresh-resource", "empty", lines, fmt.Sprintf("session %d was not assigned a resource on %s", i, bare))
+		}
+		for j := 0; j < i; j++ {
+			if resources[i] != "" && resources[i] == resources[j] {
+				r.Fail("bind-fresh-resource", "same-resource-twice", lines, fmt.Sprintf("sessions %d and %d on one BindResource() value were both assigned %s/%s", j, i, bare, resources[i]))
+			}
+		}
+	}
+	if r.Race() {
+		r.Mark("case %s", line)
+		r.Case(line, true, class)
+		return
+	}
+	r.Line(line, strings.Join(obs, " "))
+	r.Case(line, true, class)
+}
